@@ -533,6 +533,11 @@ func (p *parser) sync() {
 }
 
 func (p *parser) parsePrecedence(prec precedence) {
+	if getRule(p.current.typ).prefix == nil {
+		// leave the token for the caller, it may begin the next statement
+		p.errorAtCurrent("expected expression")
+		return
+	}
 	p.advance()
 	prefixRule := getRule(p.prev.typ).prefix
 	if prefixRule == nil {
